@@ -287,6 +287,9 @@ class Verdict:
         self.notes = []
 
     def violation(self, signature, what, replay):
+        # what is printed on the VIOLATION / KNOWN-FINDING lines: keep it one line of printable text
+        what = "".join(ch if (ch.isprintable() or ch == " ") else "\\x%02x" % ord(ch) for ch in str(what).replace("\n", " | "))
+        signature = "".join(ch if ch.isprintable() else "?" for ch in str(signature))
         for k in self.known:
             if k["signature"] == signature:
                 if signature not in self.known_hit:
